@@ -70,4 +70,15 @@ def run(prop, tier, seed, replay=None):
     v.cov["rule"] = "edge-covering walks over the (protocol state x message class) graph of PeerFsm.tla plus random walks; one evaluation = one message handled"
     v.cov["torrent_side_events_handled"] = events
     v.cov["largest_allocation_observed"] = maxalloc
+    if not replay:
+        # the same monitors over the scheduling behaviours of Sched.tla (requests outstanding, blocks arriving,
+        # wild indexes): a crash or hang there is a C05 violation as well
+        import p_sched
+        sims = p_sched.gen_behaviours(v, "quick", seed)
+        sims = sims[:1200] if tier == "quick" else sims
+        for i, sc in enumerate(sims):
+            sc["id"] = len(scen) + i
+            sc["geom"] = i % 2
+        p_sched.run_replays(v, prop, sims)
+        v.cov["traces_validated_against_impl"] += len(sims)
     return v.finish()
